@@ -788,6 +788,9 @@ struct en
     // names() must be the table of to_string
     if (std::string{fcppt::enum_::names<E>()[e]} != ts)
       throw std::logic_error{"names"};
+    // the view returned by to_string handed straight back (it points into the storage the search compares against)
+    if (opt(fcppt::enum_::from_string<E>(fcppt::enum_::to_string(e))) != opt(fcppt::enum_::from_string<E>(ts)))
+      throw std::logic_error{"from_string on the view of to_string"};
     std::basic_ostringstream<Ch> os{};
     fcppt::enum_::output(os, e);
     std::basic_string<Ch> const out{os.str()};
